@@ -516,6 +516,65 @@ def individual (lib : Lib M α) (par : FluidPar α) (K : KSt α) (x : Inp α) : 
   pure ({ shape := s.1.shape, de := de.1, rhoP := rhoP.1, us := us.1, A := A.1, Cs := Cs.1,
           beta := beta.1, betaT := bT.1.headD 0 }, bT.2)
 
+-- ------------------------------------------------------------------ query histories on one FluidParticle (C19)
+
+/-- a property query on a `FluidParticle` object -/
+inductive Query (α : Type) where
+  | density (m : List α) (T P : α)
+  | fugacity (m : List α) (T P : α)
+  | viscosity (m : List α) (T P : α)
+  | interfaceTension (m : List α) (T S P : α)
+  | solubility (m : List α) (T P Sa : α)
+  | diameter (m : List α) (T P : α)
+  | particleShape (m : List α) (T P Sa Ta : α)
+  | slipVelocity (m : List α) (T P Sa Ta : α) (clean : Bool)
+  | surfaceArea (m : List α) (T P Sa Ta : α)
+  | massTransfer (m : List α) (T P Sa Ta : α) (clean : Bool)
+  | heatTransfer (m : List α) (T P Sa Ta : α) (clean : Bool)
+  | returnAll (x : Inp α)
+
+/-- what a query returns -/
+inductive Answer (α : Type) where
+  | scalar (v : α)
+  | vector (v : List α)
+  | shape (s : Shape α)
+  | all (o : Out α)
+
+/-- the masses / state a query flashes (for mixed-phase particles) -/
+def Query.state : Query α → List α × α × α
+  | .density m T P => (m, T, P)
+  | .fugacity m T P => (m, T, P)
+  | .viscosity m T P => (m, T, P)
+  | .interfaceTension m T _ P => (m, T, P)
+  | .solubility m T P _ => (m, T, P)
+  | .diameter m T P => (m, T, P)
+  | .particleShape m T P _ _ => (m, T, P)
+  | .slipVelocity m T P _ _ _ => (m, T, P)
+  | .surfaceArea m T P _ _ => (m, T, P)
+  | .massTransfer m T P _ _ _ => (m, T, P)
+  | .heatTransfer m T P _ _ _ => (m, T, P)
+  | .returnAll x => (x.m, x.T, x.P)
+
+/-- one query on the object whose cache holds `K`: (answer, cache after) -/
+def answer (lib : Lib M α) (par : FluidPar α) (K : KSt α) : Query α → M (Answer α × KSt α)
+  | .density m T P => do let r ← density lib par K m T P; pure (.scalar r.1, r.2)
+  | .fugacity m T P => do let r ← fugacity lib par K m T P; pure (.vector r.1, r.2)
+  | .viscosity m T P => do let r ← viscosity lib par K m T P; pure (.scalar r.1, r.2)
+  | .interfaceTension m T S P => do let r ← interfaceTension lib par K m T S P; pure (.scalar r.1, r.2)
+  | .solubility m T P Sa => do let r ← solubility lib par K m T P Sa; pure (.vector r.1, r.2)
+  | .diameter m T P => do let r ← diameter lib par K m T P; pure (.scalar r.1, r.2)
+  | .particleShape m T P Sa Ta => do let r ← particleShape lib par K m T P Sa Ta; pure (.shape r.1, r.2)
+  | .slipVelocity m T P Sa Ta c => do let r ← slipVelocity lib par K m T P Sa Ta c; pure (.scalar r.1, r.2)
+  | .surfaceArea m T P Sa Ta => do let r ← surfaceArea lib par K m T P Sa Ta; pure (.scalar r.1, r.2)
+  | .massTransfer m T P Sa Ta c => do let r ← massTransfer lib par K m T P Sa Ta c; pure (.vector r.1, r.2)
+  | .heatTransfer m T P Sa Ta c => do let r ← heatTransfer lib par K m T P Sa Ta c; pure (.vector r.1, r.2)
+  | .returnAll x => do let r ← returnAll lib par K x; pure (.all r.1, r.2)
+
+/-- the cache after a history of queries -/
+def cacheAfter (lib : Lib Id α) (par : FluidPar α) : KSt α → List (Query α) → KSt α
+  | K, [] => K
+  | K, q :: qs => cacheAfter lib par (answer lib par K q).2 qs
+
 -- ------------------------------------------------------------------ InsolubleParticle (l.1974-2466)
 
 /-- the attributes of an `InsolubleParticle`; `inf` stands for `np.inf` (viscosity and
